@@ -128,6 +128,34 @@ func opFsp(a []string) string {
 		N(uint64(h.FSPSiliconInitEntryOffset)), N(uint64(h.FspMultiPhaseSiInitEntryOffset)), N(uint64(h.ExtendedImageRevision))}, " ")
 }
 
+var sacmErrs = [][2]string{
+	{"unable to parse startup AC module entry", "1"},
+	{"unknown ACM header version", "2"},
+	{"invalid key size", "3"},
+	{"cannot parse version-specific headers", "4"},
+	{"unable to read user area", "5"},
+}
+
+// sacm <bytes>: fit.ParseSACMData -- class, header version, binary size of the version's
+// structure, the user area
+func opSacm(a []string) string {
+	d, err := fit.ParseSACMData(bytes.NewReader(UnH(a[0])))
+	if err != nil {
+		return ErrClass(err, sacmErrs)
+	}
+	return "ok " + N(uint64(d.GetHeaderVersion())) + " " + N(uint64(binary.Size(d.EntrySACMDataInterface))) + " " +
+		N(uint64(len(d.UserArea))) + " " + H(d.UserArea)
+}
+
+// sacmsize <bytes>: fit.EntrySACMParseSize
+func opSacmSize(a []string) string {
+	v, err := fit.EntrySACMParseSize(UnH(a[0]))
+	if err != nil {
+		return "err 1"
+	}
+	return "ok " + N(uint64(v))
+}
+
 func cls(err error) string {
 	if err != nil {
 		return "err"
@@ -188,6 +216,8 @@ func registerCOps() {
 	Register("mc", opMc)
 	Register("me", opMe)
 	Register("fsp", opFsp)
+	Register("sacm", opSacm)
+	Register("sacmsize", opSacmSize)
 	Register("cls_fmap", opClsFmap)
 	Register("cls_fit_table", opClsFitTable)
 	Register("cls_fit_entries", opClsFitEntries)
